@@ -76,7 +76,7 @@ def check(_prop: str = "session") -> int:
         inits = [dict(ver=v, proto=v) for v in ("1.4", "2.0", "2.2")]
         jobs = [(inits[h[0] - 1], [alphabet[i - 1] for i in h[1:]]) for h in covers]
         ctx = multiprocessing.get_context("fork")
-        with ctx.Pool(16) as pool:
+        with ctx.Pool(16, initializer=common.limit_worker) as pool:
             runs = pool.map(run_session, jobs, chunksize=32)
         path = os.path.join(workdir, "session-runs.json")
         with open(path, "w") as fil:
